@@ -48,7 +48,12 @@ OUTSIDE = ('time spent inside a real TLS handshake or the DNS library; '
            '(sendall() on the fake sockets never blocks; the library sends '
            'outside its timers)')
 STUBS = ['PipeSocket / ScriptedPeer', 'virtual-time loop with the real '
-         'gevent.Timeout', 'Popen stub', 'fake HTTP connection']
+         'gevent.Timeout', 'Popen stub', 'fake HTTP connection',
+         'gevent.socket.create_connection -> cooperative PipeSocket; '
+         'socket.create_connection (standard library) -> a PipeSocket whose '
+         'recv() with nothing to read ends the calling greenlet for good '
+         '(a blocking read: the process sits in recv() and no gevent timeout '
+         'can fire)']
 ASSUMPTIONS = []
 CELL_BUDGET_S = {'quick': 240, 'thorough': 2400}
 SAMPLE_P = 0.02
@@ -72,6 +77,10 @@ def cells(tier):
     # EHLO refused with 500: the HELO fallback and what follows it
     out.append({'kind': 'relay_stall', 'lmtp': 0, 'pipe': 0, 'n': 1,
                 'helo': 1})
+    # no socket_creator given: the relay's own default
+    for lmtp in (0, 1):
+        out.append({'kind': 'relay_stall', 'lmtp': lmtp, 'pipe': 1, 'n': 1,
+                    'default_creator': 1})
     for lmtp in (0, 1):
         for pipe in (0, 1):
             out.append({'kind': 'relay_reject_stall', 'lmtp': lmtp,
@@ -86,8 +95,37 @@ def cells(tier):
     return out
 
 
+# what the default socket creators hand out (set per path)
+DEFAULT = {}
+_REAL = {}
+
+
+def _coop_create_connection(address, *a, **kw):
+    return DEFAULT['coop'](address)
+
+
+def _blocking_create_connection(address, *a, **kw):
+    return DEFAULT['blocking'](address)
+
+
 def setup(mode):
     quiet_logging()
+    # a relay built without socket_creator: gevent's create_connection gives
+    # a cooperative socket, the standard library's a blocking one (a read
+    # with nothing to read never returns and no timeout can fire)
+    import socket as _s
+    import gevent.socket as _gs
+    if not _REAL:
+        _REAL['std'] = _s.create_connection
+        _REAL['gevent'] = _gs.create_connection
+    _s.create_connection = _blocking_create_connection
+    _gs.create_connection = _coop_create_connection
+    import slimta.relay.smtp.client as rc
+    for name, val in list(vars(rc).items()):
+        if val is _REAL['std']:
+            setattr(rc, name, _blocking_create_connection)
+        elif val is _REAL['gevent']:
+            setattr(rc, name, _coop_create_connection)
     import slimta.smtp.server
     import slimta.relay.smtp.static
     import slimta.relay.pipe
@@ -324,7 +362,29 @@ def run_relay_stall(cell):
         peers.append(p)
         return p.start()
     kw = {'idle_timeout': 50} if cell.get('reuse') else {}
-    relay = make_relay(lmtp, creator, **kw)
+    if cell.get('default_creator'):
+        import gevent
+
+        class BlockedForever(gevent.GreenletExit):
+            pass
+
+        def blocking(address):
+            sock = creator(address)
+
+            class Blocking(type(sock)):
+                def recv(self, n=4096):
+                    if not self.inbuf and not self.peer_closed \
+                            and not self.closed:
+                        # the whole process would sit in recv() for good
+                        raise BlockedForever()
+                    return super(Blocking, self).recv(n)
+            sock.__class__ = Blocking
+            return sock
+        DEFAULT['coop'] = creator
+        DEFAULT['blocking'] = blocking
+        relay = make_relay(lmtp, None, **kw)
+    else:
+        relay = make_relay(lmtp, creator, **kw)
     outs = [[], []]
     done_at = [None, None]
     t0 = api.real('t_start', 0, 5)
